@@ -186,69 +186,74 @@ Definition load_h5_with (rd : reader) (ms : modes) (fs : fstore) (p : string) (l
     end
   end.
 
+Definition out := (res * list string * lworld)%type.
+
+(* parsing one XML text (a file, a string, or the string embedded in an HDF5 file) *)
+Definition of_file (fs : fstore) (name : string) (k : file_kind) (loc : list string) (w : lworld)
+  : option (list string * list string) * out :=
+  match lookup_file fs name with
+  | Some f =>
+    match f_kind f, k with
+    | FXml, FXml | FH5, FH5 => (Some (f_includes f, f_items f), (RErr, loc, w))
+    | _, _ => (None, (RErr, loc, w))
+    end
+  | None => (None, (RErr, loc, w))
+  end.
+
+(* the parse step of _read_neuroml2: Some (includes, items) of the loaded document, or the exception *)
+Definition load_top (rd : reader) (ms : modes) (fs : fstore) (src : source) (loc : list string) (w : lworld)
+  : option (list string * list string) * out :=
+  match src with
+  | SStr name => of_file fs name FXml loc w                      (* nmlparsestring *)
+  | SEmb p => of_file fs p FH5 loc w
+  | SPath p =>
+    if ends_with ".h5" p || ends_with ".hdf5" p then    (* NeuroMLHdf5Loader.load *)
+      match load_h5_with rd ms fs p loc w with
+      | (ROk items, loc1, w1) => (Some ([], items), (RErr, loc1, w1))
+      | (e, loc1, w1) => (None, (e, loc1, w1))
+      end
+    else of_file fs p FXml loc w                                 (* NeuroMLLoader.load *)
+  end.
+
+(* the include loop of _read_neuroml2 *)
+Fixpoint inc_loop (rd : reader) (ms : modes) (fs : fstore) (r : aref) (incs : list string) (doc : list string)
+         (loc : list string) (w : lworld) {struct incs} : out :=
+  match incs with
+  | [] => (ROk doc, loc, w)
+  | i :: rest =>
+    if mem i (aget r loc w) then inc_loop rd ms fs r rest doc loc w      (* incl_loc in already_included *)
+    else if ends_with ".nml" i || ends_with ".xml" i then
+      (* read_neuroml2_file(incl_loc, True, already_included=already_included): isfile check, then recursion;
+         THEN already_included.append(incl_loc); add_all_to_document(sub, doc) *)
+      match lookup_file fs i with
+      | None => (RErr, loc, w)
+      | Some _ =>
+        match rd (SPath i) true r loc w with
+        | (ROk sub, loc2, w2) =>
+          inc_loop rd ms fs r rest (add_all sub doc) (fst (aapp r i loc2 w2)) (snd (aapp r i loc2 w2))
+        | (e, loc2, w2) => (e, loc2, w2)
+        end
+      end
+    else if ends_with ".nml.h5" i then
+      match load_h5_with rd ms fs i loc w with
+      | (ROk sub, loc2, w2) =>
+        inc_loop rd ms fs r rest (add_all sub doc) (fst (aapp r i loc2 w2)) (snd (aapp r i loc2 w2))
+      | (e, loc2, w2) => (e, loc2, w2)
+      end
+    else (RErr, loc, w)                                  (* "Unrecognised extension on file" *)
+  end.
+
 (* _read_neuroml2(src, include_includes, already_included = r) *)
 Fixpoint read2 (fuel : nat) (ms : modes) (fs : fstore) (src : source) (incl : bool) (r : aref)
-         (loc : list string) (w : lworld) {struct fuel} : res * list string * lworld :=
+         (loc : list string) (w : lworld) {struct fuel} : out :=
   match fuel with
   | O => (RFuel, loc, w)
   | S n =>
     let rd : reader := read2 n ms fs in
-    (* the parse step: (includes, items) of the loaded document *)
-    let loaded : (option (list string * list string)) * res * list string * lworld :=
-      match src with
-      | SStr name =>
-        match lookup_file fs name with
-        | Some f => match f_kind f with FXml => (Some (f_includes f, f_items f), RErr, loc, w) | FH5 => (None, RErr, loc, w) end
-        | None => (None, RErr, loc, w)
-        end
-      | SEmb p =>
-        match lookup_file fs p with
-        | Some f => match f_kind f with FH5 => (Some (f_includes f, f_items f), RErr, loc, w) | FXml => (None, RErr, loc, w) end
-        | None => (None, RErr, loc, w)
-        end
-      | SPath p =>
-        if ends_with ".h5" p || ends_with ".hdf5" p then
-          match load_h5_with rd ms fs p loc w with
-          | (ROk items, loc1, w1) => (Some ([], items), RErr, loc1, w1)
-          | (e, loc1, w1) => (None, e, loc1, w1)
-          end
-        else
-          match lookup_file fs p with
-          | Some f => match f_kind f with FXml => (Some (f_includes f, f_items f), RErr, loc, w) | FH5 => (None, RErr, loc, w) end
-          | None => (None, RErr, loc, w)
-          end
-      end in
-    match loaded with
-    | (None, e, loc1, w1) => (e, loc1, w1)
-    | (Some (incs, items), _, loc1, w1) =>
-      if incl then
-        (fix loop (incs : list string) (doc : list string) (loc : list string) (w : lworld) {struct incs}
-           : res * list string * lworld :=
-           match incs with
-           | [] => (ROk doc, loc, w)
-           | i :: rest =>
-             if mem i (aget r loc w) then loop rest doc loc w
-             else if ends_with ".nml" i || ends_with ".xml" i then
-               (* read_neuroml2_file(incl_loc, True, already_included=already_included): isfile check, then recursion *)
-               match lookup_file fs i with
-               | None => (RErr, loc, w)
-               | Some _ =>
-                 match rd (SPath i) true r loc w with
-                 | (ROk sub, loc2, w2) =>
-                   let '(loc3, w3) := aapp r i loc2 w2 in
-                   loop rest (add_all sub doc) loc3 w3
-                 | (e, loc2, w2) => (e, loc2, w2)
-                 end
-               end
-             else if ends_with ".nml.h5" i then
-               match load_h5_with rd ms fs i loc w with
-               | (ROk sub, loc2, w2) =>
-                 let '(loc3, w3) := aapp r i loc2 w2 in
-                 loop rest (add_all sub doc) loc3 w3
-               | (e, loc2, w2) => (e, loc2, w2)
-               end
-             else (RErr, loc, w)
-           end) incs items loc1 w1
+    match load_top rd ms fs src loc w with
+    | (None, o) => o
+    | (Some (incs, items), (_, loc1, w1)) =>
+      if incl then inc_loop rd ms fs r incs items loc1 w1     (* ... and finally nml2_doc.includes = [] *)
       else (ROk items, loc1, w1)
     end
   end.
